@@ -83,12 +83,10 @@ Init == /\ store = [l \in Locs |-> [ver |-> VerName(l, 0), dmg |-> [f \in Files 
 \* local.is_file() -> decode(local) ; elif remote in mapper -> decode(remote) ; undecodable -> miss ; else miss.
 \* An unusable user cache dir makes local.is_file() false.
 LocalSeen(l, m) == IF cacheOK /\ local[l][m].st # "blocked" THEN local[l][m] ELSE Absent
-Src(l, m, uc) ==
-    IF ~uc THEN "parse"
-    ELSE IF LocalSeen(l, m).st = "full" THEN "local"
-    ELSE IF LocalSeen(l, m).st = "torn" THEN "parse"          \* the adjacent cell is NOT consulted then
-    ELSE IF adjacent[l][m].st = "full" THEN "adjacent"
-    ELSE "parse"
+\* The rule itself lives in CacheRule.tla; CacheAtomic.tla checks that the step-grain open of Cache.tla, run by one process, ends with
+\* exactly these sources and writes -- which is what allows Open to be ONE action here.
+CR == INSTANCE CacheRule
+Src(l, m, uc) == CR!RuleSrc(LocalSeen(l, m).st, adjacent[l][m].st, uc)     \* (after a torn local cell the adjacent one is NOT consulted)
 ServedVer(l, m, uc) ==
     CASE Src(l, m, uc) = "local" -> local[l][m].ver
       [] Src(l, m, uc) = "adjacent" -> adjacent[l][m].ver
